@@ -430,6 +430,15 @@ func VH_C19_document_gradient_Q() {
 		return
 	}
 	a, b := rec.calls[0], rec.calls[1]
+	// width="40" height="20" are CSS pixels: the canvas measures 40 x 20 px in millimetres, and the
+	// viewBox of 80 x 40 user units is fitted into it (the rect's corner at user (14,8), y down)
+	mmW, mmH := 40*25.4/96.0, 20*25.4/96.0
+	vAssert("C19.docgrad.canvas_size_in_mm", vhC19Near(c.W, mmW) && vhC19Near(c.H, mmH))
+	// the rect's local box (0,0)-(30,20) covers the user rectangle (14,8)-(44,28), y down
+	p0, p1 := a.m.Dot(Point{0, 0}), a.m.Dot(Point{30, 20})
+	vAssert("C19.docgrad.rect_where_the_viewbox_puts_it",
+		vhC19Near(math.Min(p0.X, p1.X), 14*mmW/80) && vhC19Near(math.Max(p0.X, p1.X), 44*mmW/80) &&
+			vhC19Near(math.Min(p0.Y, p1.Y), mmH-28*mmH/40) && vhC19Near(math.Max(p0.Y, p1.Y), mmH-8*mmH/40))
 	// user space of the rect -> canvas: the recorded matrix places the rect's local origin at its (x,y)
 	um := a.m.Translate(-10, -6)
 	ok := a.style.Fill.IsGradient()
